@@ -11,6 +11,7 @@ import (
 	"runtime/debug"
 	"strconv"
 	"sync"
+	"sync/atomic"
 	"time"
 )
 
@@ -179,4 +180,24 @@ func Listen(addr string) (net.Listener, error) {
 		time.Sleep(50 * time.Millisecond)
 	}
 	return nil, err
+}
+
+var hubPortNext atomic.Int32
+
+// HubPort returns a TCP port for a server that listens by port NUMBER (a hub): taken from below the range the kernel
+// hands out for ":0" listeners and outgoing connections, each number once per process, starting at an offset that
+// differs between processes, and probed before use. (Asking the kernel for a free port and releasing it again lets
+// another listener of the same process get that number in between: its traffic then ends at the wrong server.)
+func HubPort() int {
+	for try := 0; try < 4000; try++ {
+		k := int(hubPortNext.Add(1))
+		p := 10000 + (os.Getpid()*131+k)%20000
+		l, err := net.Listen("tcp", fmt.Sprintf(":%d", p))
+		if err != nil {
+			continue
+		}
+		_ = l.Close()
+		return p
+	}
+	panic("no free port for a hub")
 }
